@@ -32,6 +32,10 @@ def configs(tier, seed):
     for (cr, up) in (limits if tier == 'thorough' else [limits[i % 6], limits[(i + 1) % 6]]):
       cfgs.append(dict(name='%s/c%s/u%s' % (st, cr, up), strategy=st, creates=cr, updates=up))
     i += 1
+  # USE_WHITELIST with lists that match half of the series: the lists are the listeners' business, what is in the cache
+  # (stored before a list changed, carbon's own metrics, re-injected relay buffers) is written like anything else
+  for st in strategies[:2] if tier == 'quick' else strategies:
+    cfgs.append(dict(name='%s/lists' % st, strategy=st, creates='inf', updates='inf', lists=True))
   return cfgs
 
 
@@ -65,8 +69,16 @@ def fault_plans(n, k):
 
 def run_config(cfg, res):
   from vlib import boot, cachesim, writersim, sched as S
-  ns = boot.boot('carbon-cache', {'CACHE_WRITE_STRATEGY': cfg['strategy'], 'MAX_CREATES_PER_MINUTE': cfg['creates'],
-                                  'MAX_UPDATES_PER_SECOND': cfg['updates'], 'MAX_CACHE_SIZE': 'inf'})
+  conf = {'CACHE_WRITE_STRATEGY': cfg['strategy'], 'MAX_CREATES_PER_MINUTE': cfg['creates'],
+          'MAX_UPDATES_PER_SECOND': cfg['updates'], 'MAX_CACHE_SIZE': 'inf'}
+  files = None
+  if cfg.get('lists'):
+    conf['USE_WHITELIST'] = True
+    files = {'blacklist.conf': '^w[135]$\ncarbon\\.\n', 'whitelist.conf': '^only-this-one$\n'}
+  ns = boot.boot('carbon-cache', conf, files=files)
+  if cfg.get('lists'):
+    import carbon.service as service
+    service.createBaseService(None, ns.settings)       # the daemon's own wiring of the lists
   world = cachesim.World(ns, trace_files=('cache.py', 'events.py', 'writer.py'))
   r = gen.rng(cfg['seed'], 'C03', cfg['name'])
   n, k = (8, 2) if cfg['tier'] == 'quick' else (12, 3)
